@@ -1,6 +1,14 @@
 package reporting
 
-import "github.com/a14e/gogreement/src/zzverif/nd"
+import (
+	"fmt"
+	"go/token"
+	"strings"
+
+	"golang.org/x/tools/go/analysis"
+
+	"github.com/a14e/gogreement/src/zzverif/nd"
+)
 
 // C19-K1: truncation and caret arithmetic, for every line length (no static bound on the line).
 func ZZC19K1() {
@@ -27,4 +35,166 @@ func ZZC19K1() {
 		nd.Assert(d <= len(t), "caret inside excerpt")
 		nd.Assert(t[d-1] == s[col-1], "caret under the reported character")
 	}
+}
+
+// C19-K2: the line window. Cache entry = arbitrary file of 0..5 lines (contents are opaque atoms: the code only copies
+// them), arbitrary diagnostic line >= 1: result = lines max(1,L-2)..min(n,L+1) with their numbers, nothing if the file is
+// shorter than the window start; never a failure.
+func ZZC19K2() {
+	n := nd.Int("n_lines")
+	nd.Assume(0 <= n)
+	nd.Assume(n <= 5)
+	lines := []string{}
+	names := []string{"line1", "line2", "line3", "line4", "line5"}
+	for i := 0; i < 5; i++ {
+		if i < n {
+			lines = append(lines, nd.Atom(names[i]))
+		}
+	}
+	r := &Reporter{lineCache: map[string][]string{"f.go": lines}}
+	L := nd.Int("diag_line")
+	nd.Assume(1 <= L)
+	nd.Assume(L <= 1<<31-1)
+	res := r.readSourceLines("f.go", L, 2, 1)
+	lo := nd.IteInt(L-2 >= 1, L-2, 1)
+	hi := nd.IteInt(L+1 <= n, L+1, n)
+	wantLen := nd.IteInt(lo <= hi, hi-lo+1, 0)
+	nd.Observe("count", len(res.content))
+	nd.Assert(len(res.content) == wantLen, "window has the documented number of lines")
+	nd.Assert(len(res.lineNumbers) == len(res.content), "one number per line")
+	for k := range res.content {
+		nd.Assert(res.lineNumbers[k] == lo+k, "lines are numbered consecutively from max(1, L-2)")
+		idx := res.lineNumbers[k] - 1
+		nd.Assert(nd.And(0 <= idx, idx < len(lines)), "line number inside the file")
+		if 0 <= idx && idx < len(lines) {
+			nd.Assert(res.content[k] == lines[idx], "excerpt line k shows source line number k")
+		}
+	}
+}
+
+// C19-K2b: an unreadable file degrades to no excerpt.
+func ZZC19K2Unreadable() {
+	pass := &analysis.Pass{ReadFile: func(name string) ([]byte, error) { return nil, errUnreadable }}
+	r := NewReporter(pass, nil)
+	L := nd.Int("diag_line")
+	res := r.readSourceLines("missing.go", L, 2, 1)
+	nd.Assert(len(res.content) == 0 && len(res.lineNumbers) == 0, "unreadable file: no excerpt, no failure")
+}
+
+var errUnreadable = fmt.Errorf("unreadable")
+
+type zzViolation struct {
+	code, msg string
+	pos       token.Pos
+}
+
+func (v zzViolation) GetCode() string    { return v.code }
+func (v zzViolation) GetPos() token.Pos  { return v.pos }
+func (v zzViolation) GetMessage() string { return v.msg }
+
+// frozen documentation table
+func zzDocURL(code string) string {
+	base := "https://a14e.github.io/gogreement/"
+	switch {
+	case strings.HasPrefix(code, "IMM"):
+		return base + "02_02_immutable.html"
+	case strings.HasPrefix(code, "CTOR"):
+		return base + "02_03_constructor.html"
+	case strings.HasPrefix(code, "TONL"):
+		return base + "02_04_testonly.html"
+	case strings.HasPrefix(code, "PKGO"):
+		return base + "02_05_packageonly.html"
+	case strings.HasPrefix(code, "IMPL"):
+		return base + "02_01_implements.html"
+	}
+	return base
+}
+
+// C19-K3: the whole rendered message for an arbitrary small file (<= 3 lines, tabs allowed), arbitrary existing
+// diagnostic line and arbitrary column: header, gutter, numbered context lines, the diagnostic's own line, a caret row whose
+// prefix repeats the line's tabs, help link.
+func ZZC19K3() { zzC19K3(10, 2, "IMM01", "CTOR02", "TONL03", "PKGO01", "IMPL02", "XYZ") }
+
+// small instance for the quick tier
+func ZZC19K3Small() { zzC19K3(7, 1, "CTOR02", "XYZ") }
+
+func zzC19K3(maxContent, maxNewlines int, codes ...string) {
+	content := nd.Str("content", maxContent)
+	nd.Assume(nd.CountByte(content, '\n') <= maxNewlines)
+	nd.Assume(nd.CountByte(content, '\t') <= 2)
+	nd.Assume(nd.CountByte(content, '\r') == 0) // carriage returns are outside this harness
+	// reference line split (what an editor shows): at \n, a final newline does not start a line, one trailing \r is not shown
+	raw := strings.Split(content, "\n")
+	if raw[len(raw)-1] == "" {
+		raw = raw[:len(raw)-1]
+	}
+	n := len(raw)
+	L := nd.Int("diag_line")
+	col := nd.Int("diag_col")
+	nd.Assume(1 <= L)
+	nd.Assume(L <= n)
+	nd.Assume(1 <= col)
+	shown := raw
+	nd.Assume(col <= len(raw[L-1])+1)
+	code := nd.Enum("code", codes...)
+	msg := nd.Str("msg", 3)
+	fset, pos := nd.FsetFor("f.go", content, L, col)
+	var got string
+	pass := &analysis.Pass{
+		Fset:     fset,
+		ReadFile: func(name string) ([]byte, error) { return []byte(content), nil },
+		Report:   func(d analysis.Diagnostic) { got = d.Message },
+	}
+	NewReporter(pass, nil).ReportViolation(zzViolation{code: code, msg: msg, pos: pos})
+
+	lo := nd.IteInt(L-2 >= 1, L-2, 1)
+	hi := nd.IteInt(L+1 <= n, L+1, n)
+	want := "error: [" + code + "] " + msg + "\n" + "  |\n"
+	for k := 1; k <= n; k++ {
+		if k < lo || k > hi {
+			continue
+		}
+		want += fmt.Sprintf("%d | ", k) + shown[k-1] + "\n"
+		if k == L {
+			caret := ""
+			for i := 1; i < col; i++ {
+				if i-1 < len(shown[k-1]) && shown[k-1][i-1] == '\t' {
+					caret += "\t"
+				} else {
+					caret += " "
+				}
+			}
+			want += "  | " + caret + "^\n"
+		}
+	}
+	want += "  |\n   = help: " + zzDocURL(code) + "\n"
+	nd.Observe("got", got)
+	nd.Assert(got == want, "rendered message = header + numbered window + caret row under the reported column + help link")
+}
+
+// C19-K4: composition for long lines. One line longer than the display limit (3 arbitrary bytes + 250 fixed bytes + 3
+// arbitrary bytes), any column: the rendered excerpt is truncateString(line) and the caret row has
+// calculateDisplayColumn(line)-1 cells — both taken on the ORIGINAL line and column (K1 proves those two functions right).
+func ZZC19K4() {
+	head := nd.Str("head", 3)
+	tail := nd.Str("tail", 3)
+	nd.Assume(nd.CountByte(head, '\n')+nd.CountByte(tail, '\n') == 0)
+	nd.Assume(nd.CountByte(head, '\r')+nd.CountByte(tail, '\r') == 0)
+	nd.Assume(nd.CountByte(head, '\t')+nd.CountByte(tail, '\t') == 0)
+	line := head + strings.Repeat("x", 250) + tail
+	col := nd.Int("diag_col")
+	nd.Assume(1 <= col)
+	nd.Assume(col <= len(line)+1)
+	fset, pos := nd.FsetFor("f.go", line, 1, col)
+	var got string
+	pass := &analysis.Pass{
+		Fset:     fset,
+		ReadFile: func(name string) ([]byte, error) { return []byte(line), nil },
+		Report:   func(d analysis.Diagnostic) { got = d.Message },
+	}
+	NewReporter(pass, nil).ReportViolation(zzViolation{code: "IMM01", msg: "m", pos: pos})
+	t := truncateString(line, MaxLineLength, col)
+	d := calculateDisplayColumn(line, col, MaxLineLength)
+	want := "error: [IMM01] m\n  |\n1 | " + t + "\n  | " + strings.Repeat(" ", d-1) + "^\n  |\n   = help: " + zzDocURL("IMM01") + "\n"
+	nd.Assert(got == want, "long line: excerpt and caret use the original line and column")
 }
